@@ -36,6 +36,14 @@ CHECKS = {
          "Grammar-complete generated trees printed under canonical and random layouts (comments, CRLF, non-ASCII) and compared node by node, values and ranges, with the tree the real parser builds."),
  "C18": ("4.C18", "mutation-based generation of texts x every cursor position with crash, range-validity and determinism oracles",
          "Typing sequences of the corpus scripts plus generated mutations, analysed twice and queried for hover / definition at every position."),
+ "C16": ("4.C16", "valid-by-construction generation with a no-error oracle + name-edit generation against an independent name model (rapid)",
+         "Generated statically valid scripts must receive no error-severity diagnostic; the same scripts after name edits must receive exactly the undeclared / repeated / unused reports an independent name model (over the generator's tree and printer spans) predicts."),
+ "C17": ("4.C17", "differential checker-vs-interpreter over generated type-breaking edits (rapid)",
+         "Generated well-typed scripts broken by one or two type-level edits are both checked and executed; a clean check must exclude static-class run-time failures (and a silent check, send-all shape failures)."),
+ "C19": ("4.C19", "model-based history generation and exhaustive short histories against a fresh-state oracle; absolute navigation oracle over every position",
+         "Generated and exhaustively enumerated LSP request histories on one long-lived server state are compared, response by response and notification by notification (stdout captured), with a fresh state that only saw the latest text; navigation is checked absolutely at every cursor position of generated scripts against the printer's spans."),
+ "C20": ("4.C20", "differential CLI-vs-library over generated scripts and input channels (process-level)",
+         "The numscript binary built from the working tree is run on generated scripts through every input channel; exit status, diagnostics and JSON output are compared with what the library computes."),
 }
 
 def main():
